@@ -107,6 +107,17 @@ func (c18) Gen(r *simrt.Rand, idx int, tier string) *Case {
 		for k := r.Range(1, 3); k > 0; k-- {
 			tgt += fmt.Sprintf("2021-01-%02d \"%s\"\n%s   Expenses:TBD  %d CHF\n\n", k, descPool[r.Intn(len(descPool)-1)], accs[r.Intn(len(accs))], r.Range(1, 99))
 		}
+		// a fifth of the cases fail before anything is written: a target that does not
+		// parse, or a training journal that cannot be loaded
+		switch r.Intn(10) {
+		case 0:
+			tgt = "2020-01-01 opn Assets:Typo\n\n" + tgt
+		case 1:
+			train = "include \"not/there.knut\"\n" + train
+			if c.Sub == "infer-same" {
+				tgt = "include \"not/there.knut\"\n" + tgt
+			}
+		}
 		if c.Sub == "infer-same" {
 			c.Files["/w/t.knut"] = tgt
 			c.Args = []string{"-t", "/w/t.knut", "--inplace", "/w/t.knut"}
@@ -274,6 +285,15 @@ func (c18) Eval(c *Case) (*Violation, bool) {
 			}
 		}
 		return nil, false
+	}
+	// a command that fails before writing (training journal not loadable, target not
+	// parseable) leaves its single target bit-identical
+	if strings.HasPrefix(c.Sub, "infer") && !base.OK() {
+		for _, t := range targets {
+			if base.FS[t] != old[t] {
+				return &Violation{Signature: "failed-command-modified-file", Msg: fmt.Sprintf("infer --inplace fails (%s) but %s was modified (%d bytes before, %d after)", firstLine(base.Stderr), t, len(old[t]), len(base.FS[t])), Detail: firstDiff(old[t], base.FS[t])}, false
+			}
+		}
 	}
 	// the fault-free run: a file that does not parse is bit-identical, the others are rewritten
 	for _, t := range (c18{}).targets(c) {
@@ -572,3 +592,4 @@ func describeImage(img map[string]string) string {
 	}
 	return b.String()
 }
+
